@@ -199,8 +199,8 @@ def reaching(path: Path, name: str, upto: int | None = None) -> ast.expr | None:
             elif isinstance(st, ast.AnnAssign) and isinstance(st.target, ast.Name) and st.target.id == name and st.value:
                 val = st.value
             elif isinstance(st, ast.AugAssign) and isinstance(st.target, ast.Name) and st.target.id == name:
-                val = ast.BinOp(left=val if val is not None else ast.Name(id=name, ctx=ast.Load()),
-                                op=st.op, right=st.value)
+                # self-referential: the earlier value is resolved by subst_path on the truncated path
+                val = ast.BinOp(left=ast.Name(id=name, ctx=ast.Load()), op=st.op, right=st.value)
     return val
 
 
